@@ -216,7 +216,21 @@ func c16Run(tb rapid.TB, c c16Case) {
 			fail("Closed reported %d times; callbacks %v", nClosed, st)
 		}
 		if closedEv != nil && closedEv.Seq > discEv.Seq {
-			fail("Closed (#%d) was reported after Disconnected (#%d)", closedEv.Seq, discEv.Seq)
+			// Known finding D15: state callbacks are invoked outside the state lock, so when the connection
+			// ends on its own while Disconnect is being called the two callbacks can be delivered in the
+			// wrong order. Only that shape is excused; a Closed after a Disconnect that had no rival ending
+			// (cleanDisconnect below) is still a violation.
+			rival := c.ConnAck != "accepted"
+			for _, e := range c.Endings {
+				if e.Kind != "disconnect" {
+					rival = true
+				}
+			}
+			if vKnown("D15") && rival {
+				vKnownHit("C16", "D15")
+			} else {
+				fail("Closed (#%d) was reported after Disconnected (#%d)", closedEv.Seq, discEv.Seq)
+			}
 		}
 		if cleanDisconnect {
 			if err := r.cli.Err(); err != nil {
